@@ -189,6 +189,17 @@ func (s *Sandbox) blobPut(ls *lua.LState) int {
 		ls.ArgError(2, "blob content expected")
 	}
 
+	if s.dryRun {
+		// compute the digest and size that would be returned without pushing
+		digester := digest.Canonical.Digester()
+		size, err := io.Copy(digester.Hash(), rdr)
+		if err != nil {
+			ls.RaiseError("Failed to read blob: %v", err)
+		}
+		ls.Push(lua.LString(digester.Digest().String()))
+		ls.Push(lua.LNumber(size))
+		return 2
+	}
 	dOut, err := s.rc.BlobPut(s.ctx, r.r, descriptor.Descriptor{Digest: d}, rdr)
 	if err != nil {
 		ls.RaiseError("Failed to put blob: %v", err)
